@@ -18,32 +18,40 @@ import time
 import types
 import zipfile
 
-NX, NY = 3, 2          # grid: 3 x 2 = 6 cases
+NX, NY = 4, 2          # grid: 4 x 2 = 8 cases
 
 
 def grid_inputs(kind):
+    """x: linear -1..1 with two end points plus two must-include values written in the formats str() produces for
+    small / negative floats (exponent notation), given as list or tuple; or four points and an empty tuple."""
     from TidalPy.utilities.multiprocessing import MultiprocessingInput
     if kind == "list":
-        mi = [0.5]
-        x = MultiprocessingInput('x', 'X', 0, 1, 'linear', mi, 2)
+        x = MultiprocessingInput('x', 'X', -1, 1, 'linear', [2.5e-05, 0.5], 2)
     elif kind == "tuple":
-        mi = (0.5,)
-        x = MultiprocessingInput('x', 'X', 0, 1, 'linear', mi, 2)
+        x = MultiprocessingInput('x', 'X', -1, 1, 'linear', (-3e-07, 0.5), 2)
     elif kind == "empty_tuple":
-        x = MultiprocessingInput('x', 'X', 0, 1, 'linear', tuple(), 3)
+        x = MultiprocessingInput('x', 'X', -1, 1, 'linear', tuple(), 4)
     else:
         raise ValueError(kind)
     y = MultiprocessingInput('y', 'Y', 1, 2, 'log', [] if kind == "list" else tuple(), 2)
     return (x, y)
 
 
-XV = [0.0, 0.5, 1.0]
+def xvals(kind):
+    import numpy as np
+    if kind == "list":
+        return sorted([-1.0, 1.0, 2.5e-05, 0.5])
+    if kind == "tuple":
+        return sorted([-1.0, 1.0, -3e-07, 0.5])
+    return [float(v) for v in np.linspace(-1, 1, 4)]
+
+
 YV = [10.0, 100.0]
 
 
-def expected_value(case):
+def expected_value(case, kind):
     i, j = divmod(case, NY)
-    return XV[i] * 1000.0 + YV[j]
+    return xvals(kind)[i] * 1000.0 + YV[j]
 
 
 def case_of_index(idx):
@@ -231,7 +239,7 @@ def make_study(ctx):
     return study
 
 
-def normalise_results(res):
+def normalise_results(res, kind):
     """Project the list returned by multiprocessing_run onto [cn, case-of-index, valclass, type]."""
     import numpy as np
     out = []
@@ -241,6 +249,9 @@ def normalise_results(res):
         else:
             cn, idx, val, typ = r[0], r[1], r[2], type(r).__name__
         case = case_of_index(idx)
+        if not (0 <= case < NX * NY) or len(tuple(idx)) != 2 or not (0 <= int(idx[0]) < NX and 0 <= int(idx[1]) < NY):
+            out.append({"cn": int(cn), "case": int(case), "val": "Phantom", "type": typ})
+            continue
         if val is None:
             vc = "None"
         else:
@@ -248,7 +259,7 @@ def normalise_results(res):
                 v = float(np.asarray(val["val"]))
                 xy = [float(t) for t in np.asarray(val["xy"]).ravel()]
                 i, j = divmod(case, NY)
-                ok = (v == expected_value(case)) and xy == [XV[i], YV[j]]
+                ok = (v == expected_value(case, kind)) and xy == [xvals(kind)[i], YV[j]]
                 vc = "F" if ok else "Bad"
             except Exception as ex:       # noqa
                 vc = "Bad"
@@ -265,6 +276,7 @@ def snapshot(root):
         txt = open(lp).read()
         hdr = "full" if ('------Inputs Below------\n' in txt and '\n------------\n' in txt) else "partial"
     cases = {}
+    phantom = []
     for c in range(NX * NY):
         cases[c] = {"dir": False, "marker": False, "res": "none", "err": False}
     if os.path.isdir(sd):
@@ -273,6 +285,9 @@ def snapshot(root):
             if c is None or not d.startswith("index_"):
                 continue
             p = os.path.join(sd, d)
+            if c not in cases:
+                phantom.append(d)          # a case directory that is not part of the study's grid
+                continue
             s = cases[c]
             s["dir"] = True
             s["marker"] = os.path.isfile(os.path.join(p, "mp_success.log"))
@@ -294,7 +309,7 @@ def snapshot(root):
             "marker": [cases[c]["marker"] for c in sorted(cases)],
             "res": [cases[c]["res"] for c in sorted(cases)],
             "errf": [cases[c]["err"] for c in sorted(cases)],
-            "execs": [cnt[c] for c in sorted(cnt)]}
+            "execs": [cnt[c] for c in sorted(cnt)], "phantom_dirs": sorted(phantom)}
 
 
 def group_alive(pgid):
@@ -333,7 +348,7 @@ def run_incarnation(scen, root, inc):
             ctx.emit("StudyCrashed")
             outcome["status"] = "study_crashed"
         else:
-            recs = normalise_results(res)
+            recs = normalise_results(res, scen["kind"])
             ctx.emit("Finish", out=recs)
             outcome["status"] = "returned"
     except BaseException as ex:
